@@ -75,6 +75,8 @@ def mutable_default_part(ctx, dist):
     from hypergraph.nodes import FunctionNode
     rng = ctx.rng
     n = 0
+    mbatch = CoqBatch("C10i", ["Base", "CheckLib", "Isolation", "IsolationProofs", "MapIsolation"], shard=200)
+    mi = 0
     for _ in range(ctx.n(24, 200)):
         shape = rng.choice(["list", "dict", "tuple_of_list"])
         default = {"list": [], "dict": {"log": []}, "tuple_of_list": ([], "v")}[shape]
@@ -113,9 +115,23 @@ def mutable_default_part(ctx, dist):
         if got != expected:
             ctx.violation("oracle", f"mapped items over a node with a mutable signature default: got {got}, single runs give {expected} "
                           "(an item saw what another item put into the default)", case=case)
+        # MODEL (MapIsolation): the items are runs over one heap whose cell 0 is the default's list; how many entries each item's
+        # body left in the object it received for `acc` (theorem C10_items_isolated: always one)
+        k = len(got)
+        items_t = c_list([f"(item {i + 1})" for i in range(k)])
+        sched_t = c_list([f"({i}%nat, body)" for i in range(k)])
+        mbatch.add(mi, 150, "list_eqb Nat.eqb",
+                   f"let '(h, rs, tr) := exec_sched [[]] {items_t} {sched_t} in map (fun st => length (nth 1 (c_after (s_call st)) [])) tr",
+                   c_list([f"{len(r)}%nat" for r in got]))
+        mi += 1
         if inner(default):
             ctx.violation("oracle", f"the signature default itself was modified: {default}", case=case)
-    return n
+    res = mbatch.run()
+    if res["error"]:
+        ctx.violation("harness", res["error"])
+    for (ci, code, mv, real, mexp) in res["failed"]:
+        ctx.violation("correspondence", f"entries each item left in its `acc` object: implementation {real} vs model (MapIsolation) {mv}", case={"family": "mutable_default", "index": ci})
+    return n + len(mbatch)
 
 
 def clone_part(ctx, dist):
